@@ -156,6 +156,19 @@ CHECKS = {
              'from polygon centroids (no face_x / face_y): bounded only.',
         technique='AST-generated verification conditions over the real source at Skolem cells, z3; bounded native cross-check of all accessors cell by cell',
         design_ref='Part III C02'),
+    'C04': dict(
+        category='proof',
+        text='get_index_for_point / select_point (real bodies) against the contracts of polygons / strtree and SH-STRTREE-QUERY '
+             '(hits in unspecified order, no repeats, exactly the positions with a polygon satisfying the predicate): one query '
+             'of the point with predicate intersects, never nearest; result None iff no cell intersects; otherwise the '
+             'returned position intersects, is never a hole, no intersecting position is lower (sort + first), its native '
+             'index is wind_index of that position (C01) and its polygon is the stored one; select_point refuses misses '
+             'with ValueError and otherwise selects that index. 6 convention configurations, all extents.',
+        note=TRUST + 'Assumed: contracts of Convention.polygons / strtree (verified under C02/C06), SH-STRTREE-QUERY, NP-SORT '
+             '(sorting an enumeration without repeats gives the increasing enumeration), SELECTION-THEORY. shapely.intersects '
+             'itself vs geometry: bounded brute-force stand-in.',
+        technique='AST-generated verification conditions over the real source against callee contracts, z3; bounded native brute-force oracle',
+        design_ref='Part III C04'),
 }
 
 NOT_YET = 'check not built yet (work in progress, see DESIGN.md)'
